@@ -29,6 +29,9 @@ func PathValues(p protopath.Path, m proto.Message) (protopath.Values, error) {
 			v.Values = append(v.Values, cursor)
 		case protopath.FieldAccessStep:
 			if f, ok := desc.(protoreflect.FieldDescriptor); ok {
+				if f.IsList() || f.IsMap() {
+					return protopath.Values{}, fmt.Errorf("%d: cursor is a list or map and must be indexed before field access", i)
+				}
 				desc = f.Message()
 			}
 			md, ok := desc.(protoreflect.MessageDescriptor)
@@ -68,6 +71,9 @@ func PathValues(p protopath.Path, m proto.Message) (protopath.Values, error) {
 				return protopath.Values{}, fmt.Errorf("%d: cursor descriptor %T is not a map", i, fd)
 			}
 			// If MapIndex is the wrong type for Map, we can't detect that and this will panic.
+			// The cursor now holds a map value, which is described by the map's value type and not
+			// by the map field (whose message type is the synthetic key/value entry).
+			desc = fd.MapValue().Message()
 			cursor = cursor.Map().Get(step.MapIndex())
 			if !cursor.IsValid() {
 				return protopath.Values{}, fmt.Errorf("%d: cursor map missing key %v", i, step.MapIndex())
